@@ -221,23 +221,37 @@ def _case(rng, name):
     return bytes(ch ^ 0x20 if (65 <= ch <= 90 or 97 <= ch <= 122) and rng.random() < 0.5 else ch for ch in name)
 
 
-def random_cmsg(rng, allow_trunc=True, persistent=False):
-    """A seeded random concrete message (real header names, real gzip bodies) with its framing fields."""
-    method = 'HEAD' if rng.random() < 0.12 else 'GET'
-    status = rng.choice([200] * 8 + [204, 304])
-    interim = rng.random() < 0.08
-    ver = b'1.0' if rng.random() < 0.1 else b'1.1'
-    te = 'none' if ver == b'1.0' else rng.choice(['none'] * 4 + ['chunked'] * 4 + ['Chunked', 'gzip, chunked'])
-    cl = rng.choice(['none', 'exact', 'exact', 'exact', 'larger', 'smaller', 'nonnum', 'neg'])
-    if te != 'none' and rng.random() < 0.8:
-        cl = 'none'
-    conn = rng.choice(['none', 'none', 'close', 'keep-alive'])
-    fmt = rng.choice(['crlf'] * 4 + ['lf', 'nospace', 'folded', 'dup'])
+def random_choice(rng, allow_trunc=True, persistent=False):
+    """A seeded random point of the message space (the same dimensions as Choices of HttpWire.tla, larger bodies)."""
+    ch = {}
+    ch['method'] = 'HEAD' if rng.random() < 0.12 else 'GET'
+    ch['status'] = rng.choice([200] * 8 + [204, 304])
+    ch['interim'] = 1 if rng.random() < 0.08 else 0
+    ch['ver'] = '1.0' if rng.random() < 0.1 else '1.1'
+    ch['te'] = 'none' if ch['ver'] == '1.0' else rng.choice(['none'] * 4 + ['chunked'] * 4 + ['Chunked', 'gzip, chunked'])
+    ch['cl'] = rng.choice(['none', 'exact', 'exact', 'exact', 'larger', 'smaller', 'nonnum', 'neg'])
+    if ch['te'] != 'none' and rng.random() < 0.8:
+        ch['cl'] = 'none'
+    ch['conn'] = rng.choice(['none', 'none', 'close', 'keep-alive'])
+    ch['fmt'] = rng.choice(['crlf'] * 4 + ['lf', 'nospace', 'folded', 'dup'])
     size = rng.choice([0, 1, 2, 3, 5, 17, 64, 300, 1000] + ([5000, 9000] if rng.random() < 0.2 else []))
-    content = bytes(rng.choice(b'abcdefghij \n<>/') if rng.random() < 0.9 else rng.randrange(256) for _ in range(size))
+    ch['content'] = bytes(rng.choice(b'abcdefghij \n<>/') if rng.random() < 0.9 else rng.randrange(256) for _ in range(size))
+    ch['gzip'] = rng.random() < 0.3
+    ch['trunc_frac'] = rng.random() if (allow_trunc and rng.random() < 0.25) else None
+    ch['sclose'] = False if persistent else rng.random() < 0.3
+    return ch
+
+
+def build_cmsg(ch, rng=None):
+    """Concrete message of a choice record.  With rng: random header-name case, value spellings, chunk sizes,
+    extensions and trailers; without: the canonical rendering (the one concrete_of gives for the model's tokens)."""
+    method, status, te, cl, fmt = ch['method'], ch['status'], ch['te'], ch['cl'], ch['fmt']
+    ver = ch.get('ver', '1.1').encode()
+    conn = ch.get('conn', 'none')
+    content = ch.get('content', b'')
     bodyless = method == 'HEAD' or status in (204, 304)
-    coded = (not bodyless) and rng.random() < 0.3 and te != 'gzip, chunked' and cl in ('none', 'exact')
-    if te == 'gzip, chunked':
+    coded = (not bodyless) and bool(ch.get('gzip')) and te != 'gzip, chunked' and cl in ('none', 'exact')
+    if te == 'gzip, chunked' and ch.get('gzip'):
         body = _gzip_bytes(content)     # transfer-coding gzip: delivered as is by a client that only delimits
         content = body
     elif coded:
@@ -251,27 +265,29 @@ def random_cmsg(rng, allow_trunc=True, persistent=False):
     if cl == 'smaller' and not body:
         cl = 'exact'
     n = len(body)
-    clv = {'exact': n, 'larger': n + rng.choice([1, 2, 50]), 'smaller': max(n - rng.choice([1, 2, 7]), 0),
+    r = rng
+    clv = {'exact': n, 'larger': n + (r.choice([1, 2, 50]) if r else 2), 'smaller': max(n - (r.choice([1, 2, 7]) if r else 1), 0),
            'nonnum': CL_NONNUM, 'neg': CL_NEG, 'none': 0}[cl]
     eol = b'\n' if fmt == 'lf' else b'\r\n'
     lines = []
 
     def add_field(kind, val, primary):
         name, value = field_text(kind, val)
-        name = _case(rng, name)
-        if kind == KTE and val == 2:
-            value = rng.choice([b'Chunked', b'CHUNKED', b'chunkeD'])
-        if kind == KTE and val == 3:
-            value = rng.choice([b'gzip, chunked', b'gzip,chunked', b'gzip, Chunked'])
-        if kind == KCL and val == CL_NONNUM:
-            value = rng.choice([b'abc', b'12a', b'1 2', b'0x10'])
-        if kind == KCL and val == CL_NEG:
-            value = rng.choice([b'-1', b'-20'])
+        if r:
+            name = _case(r, name)
+            if kind == KTE and val == 2:
+                value = r.choice([b'Chunked', b'CHUNKED', b'chunkeD'])
+            if kind == KTE and val == 3:
+                value = r.choice([b'gzip, chunked', b'gzip,chunked', b'gzip, Chunked'])
+            if kind == KCL and val == CL_NONNUM:
+                value = r.choice([b'abc', b'12a', b'1 2', b'0x10'])
+            if kind == KCL and val == CL_NEG:
+                value = r.choice([b'-1', b'-20'])
         if fmt == 'nospace':
             lines.append(('head', line_text(tok(kind, val, 1), name, value), eol, tok(kind, val, 1)))
         elif fmt == 'folded' and primary:
             lines.append(('head', line_text(tok(kind, val, 2), name, value), eol, tok(kind, val, 2)))
-            lead = rng.choice([b' ', b'\t', b'  '])
+            lead = r.choice([b' ', b'\t', b'  ']) if r else b' '
             lines.append(('head', lead + value, eol, tok(kind, val, 3)))
         elif fmt == 'dup' and primary:
             lines.append(('head', line_text(tok(kind, val, 0), name, value), eol, tok(kind, val, 0)))
@@ -279,7 +295,7 @@ def random_cmsg(rng, allow_trunc=True, persistent=False):
         else:
             lines.append(('head', line_text(tok(kind, val, 0), name, value), eol, tok(kind, val, 0)))
 
-    if interim:
+    if ch.get('interim'):
         t = tok(KSTATUS, 1 * 2, 0)
         lines.append(('ihead', line_text(t), eol, t))
         lines.append(('ihead', b'', eol, None))
@@ -288,21 +304,21 @@ def random_cmsg(rng, allow_trunc=True, persistent=False):
     fold_te = te != 'none'
     fold_cl = not fold_te and cl != 'none'
     fields = []
-    pads = rng.sample(range(2, len(PADS) + 1), rng.randrange(0, 4))
+    pads = r.sample(range(2, len(PADS) + 1), r.randrange(0, 4)) if r else []
     if coded and PAD_CE_GZIP + 1 not in pads:
         pads.append(PAD_CE_GZIP + 1)
     if not coded and PAD_CE_GZIP + 1 in pads:
         pads.remove(PAD_CE_GZIP + 1)
-    pads.append(1)
     if te != 'none':
         fields.append((KTE, {'chunked': 1, 'Chunked': 2, 'gzip, chunked': 3}[te], fmt == 'folded' and fold_te))
     if cl != 'none':
         fields.append((KCL, clv, (fmt == 'folded' and fold_cl) or fmt == 'dup'))
     if conn != 'none':
         fields.append((KCONN, {'close': 1, 'keep-alive': 2}[conn], False))
-    for p in pads:
+    for p in pads + [1]:
         fields.append((KPAD, p, p == 1 and ((fmt == 'folded' and not fold_te and not fold_cl) or (fmt == 'dup' and cl == 'none'))))
-    rng.shuffle(fields)
+    if r:
+        r.shuffle(fields)
     for f in fields:
         add_field(*f)
     lines.append(('head', b'', eol, None))
@@ -316,17 +332,24 @@ def random_cmsg(rng, allow_trunc=True, persistent=False):
     cm['head'] = b''.join(c + e for (p, c, e, t) in lines if p == 'head')
     if chk:
         pos = 0
+        ext0 = b';x' if ch.get('ext') else b''
         while pos < len(body):
-            k = rng.choice([1, 2, 3, 16, 255, 256, 4096, 5000, len(body)])
+            if r:
+                k = r.choice([1, 2, 3, 16, 255, 256, 4096, 5000, len(body)])
+            else:
+                k = 1 if (ch.get('split') == 2 and pos == 0 and len(body) >= 2) else len(body)
             data = body[pos:pos + k]
             pos += len(data)
-            hx = (b'%x' if rng.random() < 0.7 else b'%X') % len(data)
-            if rng.random() < 0.15:
+            hx = (b'%x' if (not r or r.random() < 0.7) else b'%X') % len(data)
+            if r and r.random() < 0.15:
                 hx = b'0' + hx
-            ext = rng.choice([b'', b'', b'', b';x', b';name=value', b' ;q=1'])
+            ext = r.choice([b'', b'', b'', b';x', b';name=value', b' ;q=1']) if r else ext0
             cm['chunks'].append({'hdr': hx + ext + b'\r\n', 'data': data, 'end': b'\r\n'})
-        cm['last'] = rng.choice([b'0', b'0', b'00', b'0;x']) + b'\r\n'
-        cm['trailer'] = rng.choice([b'', b'', b'X-Trailer: v\r\n', b'X-T:1\r\nX-U: 2\r\n']) + b'\r\n'
+        cm['last'] = (r.choice([b'0', b'0', b'00', b'0;x']) if r else b'0' + ext0) + b'\r\n'
+        if r:
+            cm['trailer'] = r.choice([b'', b'', b'X-Trailer: v\r\n', b'X-T:1\r\nX-U: 2\r\n']) + b'\r\n'
+        else:
+            cm['trailer'] = (b'T:v\r\n' if ch.get('tr') else b'') + b'\r\n'
     elif not bodyless:
         cm['raw'] = body
     f = full(cm)
@@ -334,10 +357,17 @@ def random_cmsg(rng, allow_trunc=True, persistent=False):
     # a coded body delimited by the close of the connection cannot be seen to be cut short: C19's subject
     close_delimited = (not bodyless) and te == 'none' and cl in ('none', 'nonnum', 'neg')
     cm['trunc'] = NOTRUNC
-    if allow_trunc and rng.random() < 0.25 and len(f) > 0 and not (coded and close_delimited):
-        cm['trunc'] = rng.randrange(0, len(f))
-    cm['sclose'] = True if (cm['trunc'] != NOTRUNC or must_close) else (False if persistent else rng.random() < 0.3)
+    if ch.get('trunc') is not None:
+        cm['trunc'] = ch['trunc']
+    elif ch.get('trunc_frac') is not None and len(f) > 0 and not (coded and close_delimited):
+        cm['trunc'] = int(ch['trunc_frac'] * len(f))
+    cm['sclose'] = True if (cm['trunc'] != NOTRUNC or must_close) else bool(ch.get('sclose'))
     return cm
+
+
+def random_cmsg(rng, allow_trunc=True, persistent=False):
+    """A seeded random concrete message (real header names, real gzip bodies) with its framing fields."""
+    return build_cmsg(random_choice(rng, allow_trunc, persistent), rng)
 
 
 def _gzip_bytes(data):
